@@ -281,6 +281,52 @@ def _norm_lambda(e):
     return A.text(e)
 
 
+def run_W8(chk):
+    """W8: pending swaps form a Z2 set -- a crossing applied twice is no crossing.  In _resolve_bad_swaps every insertion into the set of
+    pending swaps is a *toggle*: `symmetric_difference_update({k})` / `^=`, or `add(k)` on the branch where `k` was tested to be absent
+    (with `discard(k)` on the other).  An unconditional `add` makes a crossing listed twice (by the user, or created twice by jump
+    moves) count once instead of cancelling, while the direct same-tensor route cancels it: the sign depends on the route."""
+    prog = chk.prog
+    chk.rule("W8", "pending swaps are a Z2 set: every insertion is a toggle (a crossing applied twice cancels)", floor=2)
+    rbs = prog.func(EIN, "_resolve_bad_swaps")
+    fn = rbs.node
+    sets = {n.targets[0].id for n in ast.walk(fn) if isinstance(n, ast.Assign) and isinstance(n.targets[0], ast.Name) and isinstance(n.value, ast.Call)
+            and A.call_name(n.value) == "set" and not n.value.args}
+    sets = {z for z in sets if any(isinstance(c, ast.Call) and isinstance(c.func, ast.Attribute) and A.text(c.func.value) == z and c.func.attr == "discard" for c in ast.walk(fn))}
+    chk.require(sets, "_resolve_bad_swaps: the set of pending swaps (created by set(), shrunk by discard) not found")
+    n = 0
+    for fdef in [fn] + [x for x in ast.walk(fn) if isinstance(x, ast.FunctionDef) and x is not fn]:
+        par = A.enclosing_map(fdef)
+        for c in A.walk_local(fdef, include_self=False):
+            if not (isinstance(c, ast.Call) and isinstance(c.func, ast.Attribute) and A.text(c.func.value) in sets):
+                continue
+            z = A.text(c.func.value)
+            if c.func.attr in ("symmetric_difference_update",):
+                n += 1
+                chk.ok("W8", (rbs, c), f"`{A.short(c, 60)}` toggles")
+            elif c.func.attr in ("add", "update"):
+                n += 1
+                key = A.text(c.args[0]) if c.args else "?"
+                ok = False
+                cur = c
+                while cur in par:
+                    prev, cur = cur, par[cur]
+                    if isinstance(cur, ast.If) and isinstance(cur.test, ast.Compare) and len(cur.test.ops) == 1 and A.text(cur.test.comparators[0]) == z \
+                            and A.text(cur.test.left) == key:
+                        in_body = any(prev is b_ or prev in list(ast.walk(b_)) for b_ in cur.body)
+                        absent_branch = (isinstance(cur.test.ops[0], ast.NotIn) and in_body) or (isinstance(cur.test.ops[0], ast.In) and not in_body)
+                        other = cur.orelse if in_body else cur.body
+                        discards = any(isinstance(x, ast.Call) and isinstance(x.func, ast.Attribute) and x.func.attr in ("discard", "remove") and A.text(x.func.value) == z
+                                       and x.args and A.text(x.args[0]) == key for b_ in other for x in ast.walk(b_))
+                        ok = absent_branch and discards
+                        break
+                chk.verdict("W8", (rbs, c), f"`{A.short(c, 50)}` only where `{key}` is absent, discarded where present", True if ok else False,
+                            f"_resolve_bad_swaps: `{A.short(c, 50)}` inserts a swap unconditionally: a crossing that is already pending (listed twice in swap=, as "
+                            f"(a,b) and (b,a), or created again by a jump move) must cancel, not stay -- the sign then differs between contraction orders "
+                            f"that resolve it by jump moves and those that meet it on one tensor")
+    chk.require(n >= 2, f"_resolve_bad_swaps: {n} insertions into the set of pending swaps found (2 confirmed by hand)")
+
+
 def run_W6(chk):
     """Sibling agreement of the renumbering tables of _meta_ncon.  After every executed command the axes of the touched tensors are
     renumbered; *every* table that stores (tensor, axis) coordinates -- the open edges and the pending swaps -- has to be renumbered
@@ -461,6 +507,7 @@ def run(chk):
     _e3.run_L1(chk, rule="W7", floor=4, only={"swap_gate", "_swap_gate_charge", "_meta_swap_gate", "_meta_swap_gate_charge"})
     chk.rule("W6", "ncon/einsum: the tables of open edges and of pending swaps are renumbered by the same maps after every command", floor=8)
     run_W6(chk)
+    run_W8(chk)
     sg = prog.func(CON, "swap_gate")
     msg = prog.func(CON, "_meta_swap_gate")
     msgc = prog.func(CON, "_meta_swap_gate_charge")
